@@ -315,28 +315,36 @@ Definition omega_of (st : kstate) (c i : nat) : T :=
 Definition gamma_of (st : kstate) (c c' : nat) : T :=
   lsum o (map (fun i => omega_of st c i) (members (ks_cl st) (ks_leaves st) c')).
 
-(* the body of `for l_split in range(n_leaf - 1)`; pre = nu[:l_split], x = nu[l_split], rest = nu[l_split+1:] *)
-Fixpoint scan (fix7 fix8 : bool) (st : kstate) (gamma omega : nat -> nat -> T) (j k f n_leaf : nat)
-         (leaf_square : T) (pre rest : list nat) (sl_square sr_square : T) (slc src : list T) (best : split) : split :=
+(* `for l_split in range(n_leaf - 1)`: pre = nu[:l_split], x = nu[l_split], rest' = nu[l_split+1:].
+   The loop maintains sl_square, sr_square, sl_clusters, sr_clusters incrementally and hands them to [visit]
+   (the min_leaf / equal-value tests followed by compute_all_splits, see [scan_visit]). *)
+Fixpoint scan_gen {B : Type} (kap omega : nat -> nat -> T) (nc : nat)
+         (visit : B -> list nat -> nat -> list nat -> T -> T -> list T -> list T -> B)
+         (pre rest : list nat) (sl_square sr_square : T) (slc src : list T) (acc : B) : B :=
   match rest with
-  | x :: ((y :: _) as rest') =>
-      let kap := ks_kernel st in
+  | x :: ((_ :: _) as rest') =>
       let alpha := lsum o (map (fun z => kap x z) pre) in
       let beta := lsum o (map (fun z => kap x z) rest') in
       let sl_square := sl_square +! (two *! alpha +! kap x x) in
       let sr_square := sr_square -! (two *! beta +! kap x x) in
-      let col := map (fun a => omega a x) (seq 0 (ks_nc st)) in
+      let col := map (fun a => omega a x) (seq 0 nc) in
       let slc := vadd slc col in
       let src := vsub src col in
-      let l_split := length pre in
-      let best :=
-        if (S l_split <? ks_minleaf st) || (n_leaf <? l_split + ks_minleaf st + 1) then best
-        else if neqb o (ks_X st x f) (ks_X st y f) then best
-        else compute_all_splits fix7 fix8 best sl_square sr_square leaf_square (vget slc) (vget src)
-                                (csize st) gamma omega n_leaf (ks_nc st) (ks_kmax st) k j (S l_split) f (ks_X st x f) in
-      scan fix7 fix8 st gamma omega j k f n_leaf leaf_square (pre ++ [x]) rest' sl_square sr_square slc src best
-  | _ => best
+      let acc := visit acc pre x rest' sl_square sr_square slc src in
+      scan_gen kap omega nc visit (pre ++ [x]) rest' sl_square sr_square slc src acc
+  | _ => acc
   end.
+
+(* what happens at one split position once the stocks are known *)
+Definition scan_visit (fix7 fix8 : bool) (st : kstate) (gamma omega : nat -> nat -> T) (j k f n_leaf : nat)
+           (leaf_square : T) (best : split) (pre : list nat) (x : nat) (rest' : list nat)
+           (sl_square sr_square : T) (slc src : list T) : split :=
+  let l_split := length pre in
+  let y := hd 0 rest' in
+  if (S l_split <? ks_minleaf st) || (n_leaf <? l_split + ks_minleaf st + 1) then best
+  else if neqb o (ks_X st x f) (ks_X st y f) then best
+  else compute_all_splits fix7 fix8 best sl_square sr_square leaf_square (vget slc) (vget src)
+                          (csize st) gamma omega n_leaf (ks_nc st) (ks_kmax st) k j (S l_split) f (ks_X st x f).
 
 (* _utils.pyx::find_best_split *)
 Definition find_best (fix7 fix8 : bool) (st : kstate) : split :=
@@ -351,7 +359,8 @@ Definition find_best (fix7 fix8 : bool) (st : kstate) : split :=
       let leaf_square := lsum o (map (fun i => Lambda_of st j i) leaf) in
       let src0 := map (fun c => lsum o (map (fun i => omega c i) leaf)) (seq 0 (ks_nc st)) in
       let slc0 := map (fun _ => n0 o) (seq 0 (ks_nc st)) in
-      scan fix7 fix8 st gamma omega j k f n_leaf leaf_square [] nu (n0 o) leaf_square slc0 src0 best)
+      scan_gen (ks_kernel st) omega (ks_nc st) (scan_visit fix7 fix8 st gamma omega j k f n_leaf leaf_square)
+               [] nu (n0 o) leaf_square slc0 src0 best)
       (ks_feats st) best)
     (ks_explore st) split0.
 
